@@ -28,11 +28,7 @@ from machines.build import BUILD_STUBS
 from machines import threads as T
 
 FIDDLE_DIR = os.path.dirname(os.path.abspath(fdl.__file__)) + os.sep
-STUBS = BUILD_STUBS + [
-    {'name': 'n0b', 'kind': 'func',
-     'params': [['uid', 'pk', None], ['x', 'pk', 'v'], ['y', 'pk', 'v'],
-                ['w', 'pk', 'v']]},
-]
+STUBS = BUILD_STUBS
 NAMES = dict(T.NAMES, n0b=['x', 'y', 'w'])
 ABSENT = object()
 LINE_RANGES = prog.op_line_ranges()
